@@ -179,6 +179,86 @@ def oracle_iter(ctx: Ctx, t, nr, nc, which, a, b, c, d):
                         f"iter_{which}{(a, b, c, d)} on {nr}x{nc}: {[len(x) for x in res]} items per line, expected {[len(x) for x in exp]}")
 
 
+def oracle_a1_history(ctx: Ctx, ops: list):
+    """One table through a history of edits; after every edit EVERY position is read in A1 and in row/column form (the
+    same A1 texts are therefore read again and again): both forms give the same cell, and the A1 text of a position
+    just outside the table raises IndexError.  ops: ["W", r, c, v] | ["AR", n, start] | ["AC", n, start] | ["DR", n, start]
+    | ["DC", n, start] | ["M", a1range]"""
+    d, t = fresh(4, 3)
+    case = {"a1_history": ops}
+
+    def sweep(k):
+        for r in range(t.num_rows):
+            for c in range(t.num_cols):
+                ctx.count("oracle-a1-history")
+                ca, cb = call(t.cell, a1(r, c))[1], call(t.cell, r, c)[1]
+                if ca is not cb or ca is None:
+                    sa = "raises" if ca is None else gridlib.show_cell(ca)
+                    sb = "raises" if cb is None else gridlib.show_cell(cb)
+                    ctx.oracle_fail("a1-differs-from-rowcol", dict(case, upto=k, pos=[r, c]),
+                                    f"after {ops[:k]}: cell({a1(r, c)!r}) -> {sa}; cell({r},{c}) -> {sb}")
+                    return False
+        for text in (a1(t.num_rows, 0), a1(0, t.num_cols), a1(t.num_rows + 1, t.num_cols)):
+            st = call(t.cell, text)[0]
+            if st != "!IndexError":
+                ctx.oracle_fail("read-outside-accepted", dict(case, upto=k, a1=text), f"after {ops[:k]}: cell({text!r}) on {t.num_rows}x{t.num_cols} -> {st}")
+                return False
+        return True
+
+    if not sweep(0):
+        return
+    for k, op in enumerate(ops, 1):
+        try:
+            if op[0] == "W":
+                t.write(op[1], op[2], op[3])
+            elif op[0] == "AR":
+                t.add_row(op[1], op[2])
+            elif op[0] == "AC":
+                t.add_column(op[1], op[2])
+            elif op[0] == "DR":
+                t.delete_row(op[1], op[2])
+            elif op[0] == "DC":
+                t.delete_column(op[1], op[2])
+            elif op[0] == "M":
+                t.merge_cells(op[1])
+        except (IndexError, ValueError):
+            pass      # a refused edit changes nothing; the sweep below still has to agree
+        if not sweep(k):
+            return
+    ctx.nontrivial(("a1-history", json.dumps(ops)))
+
+
+def gen_a1_history(rng):
+    ops = []
+    nr, nc = 4, 3
+    for _ in range(rng.randrange(2, 7)):
+        k = rng.choice(["W", "AR", "AC", "DR", "DC", "M", "AR", "DC"])
+        if k == "W":
+            r, c = rng.randrange(nr + 2), rng.randrange(nc + 1)
+            ops.append(["W", r, c, rng.randrange(100, 999)])
+            nr, nc = max(nr, r + 1), max(nc, c + 1)
+        elif k in ("AR", "AC"):
+            ext = nr if k == "AR" else nc
+            ops.append([k, 1, rng.choice([None, 0, rng.randrange(ext)])])
+            if k == "AR":
+                nr += 1
+            else:
+                nc += 1
+        elif k in ("DR", "DC"):
+            ext = nr if k == "DR" else nc
+            if ext < 3:
+                continue
+            ops.append([k, 1, rng.choice([None, 0, rng.randrange(ext)])])
+            if k == "DR":
+                nr -= 1
+            else:
+                nc -= 1
+        else:
+            r, c = rng.randrange(nr - 1), rng.randrange(nc - 1)
+            ops.append(["M", f"{a1(r, c)}:{a1(r + 1, c + rng.randrange(2))}"])
+    return ops
+
+
 def positions_for(nr, nc, big):
     rows = sorted(set([-3, -2, -1, 0, 1, 2, 3, nr - 2, nr - 1, nr, nr + 1, nr + 2] + ([255, 256, 257, 999998, 999999, 1000000, 1000001] if big else [])))
     cols = sorted(set([-3, -2, -1, 0, 1, 2, 3, nc - 2, nc - 1, nc, nc + 1, nc + 2] + ([255, 256, 257, 998, 999, 1000, 1001] if big else [])))
@@ -282,6 +362,12 @@ def run(ctx: Ctx) -> int:
             ctx.count("oracle-iter", 2)
             ctx.nontrivial(("iter", nr, nc, a, b, c, dd))
     ctx.dist("oracle_positions", n_pos)
+    # histories on ONE table, every position read in both forms after every edit
+    hs = [[["AR", 1, 1]], [["DC", 1, 0]], [["M", "B2:C3"]], [["DR", 1, 0], ["AC", 1, 0]], [["W", 5, 4, 1], ["DR", 1, None]]]
+    hs += [gen_a1_history(rng) for _ in range(25 if ctx.quick else 300)]
+    for h in hs:
+        oracle_a1_history(ctx, h)
+    ctx.dist("a1_histories", len(hs))
     return common.finish(ctx, search)
 
 
@@ -309,7 +395,9 @@ def replay(path: str) -> int:
     if d.get("kind") == "failing-input":
         case = d["case"]
         sub = common.Ctx("C11", "quick", 0, LEVEL)
-        if "iter" in case:
+        if "a1_history" in case:
+            oracle_a1_history(sub, case["a1_history"])
+        elif "iter" in case:
             nr, nc = case["shape"]
             _, t = fresh(nr, nc)
             oracle_iter(sub, t, nr, nc, case["iter"], *case["args"])
